@@ -588,9 +588,18 @@ def flows_into(f, expr, src_pred, _seen=None):
         if isinstance(y, ast.Name) and isinstance(y.ctx, ast.Load) and y.id not in seen:
             seen.add(y.id)
             for d in local_defs(f, y.id):
-                e = d[1] if isinstance(d, tuple) else d
+                e = (d[2] if d[0] == "aug" else d[1]) if isinstance(d, tuple) else d
                 if isinstance(e, ast.AST) and flows_into(f, e, src_pred, seen):
                     return True
+            # in-place growth of the local (x.update(e), x.extend(e), x.append(e), x.add(e), x |= e) and loop targets
+            for n in walk_shallow(f.node):
+                if isinstance(n, ast.Call) and isinstance(n.func, ast.Attribute) and isinstance(n.func.value, ast.Name) \
+                        and n.func.value.id == y.id and n.func.attr in ("update", "extend", "append", "add", "insert", "setdefault", "union"):
+                    if any(flows_into(f, a, src_pred, seen) for a in list(n.args) + [k.value for k in n.keywords]):
+                        return True
+                if isinstance(n, ast.For) and any(isinstance(t, ast.Name) and t.id == y.id for t in ast.walk(n.target)):
+                    if flows_into(f, n.iter, src_pred, seen):
+                        return True
     return False
 
 
